@@ -130,6 +130,13 @@ def l2(frame):
         and frame[off + 2] == 3 and frame[off + 3:off + 6] == b"\0\0\0"):
       et = (frame[off + 6] << 8) | frame[off + 7]
       off += 8
+      if et == ETH_VLAN and vlan is None and len(frame) >= off + 4:
+        # a tag behind the SNAP header (the order of the specification's
+        # flowchart: decode 802.2/SNAP first, then look for 0x8100)
+        tci = (frame[off] << 8) | frame[off + 1]
+        vlan = (tci & 0xfff, tci >> 13)
+        et = (frame[off + 2] << 8) | frame[off + 3]
+        off += 4
     else:
       et = 0x05ff
   return {"dst": dst, "src": src, "vlan": vlan, "ethertype": et,
